@@ -211,6 +211,18 @@ def scenarios(pid, tier, seed):
             sc = dyn_gen.add_late(sc, rng)
             if sc is not None:
                 out.append(("late-edits", sc))
+    if pid in ("C01", "C10", "C14"):
+        # schedulers with the library's own hash / equality (no chosen iteration order): trees with several nested
+        # schedulers, empty ones and look-alikes included
+        for i in range(n_r // 8):
+            sc = dyn_gen.gen_tree(rng, depth=rng.choice([2, 2, 3]), p_sched=0.6)
+            sc["plain"] = True
+            sc["late_fill"] = i % 2 == 0
+            out.append(("plain-classes", sc))
+        for i in range(n_r // 10):
+            sc = dyn_gen.gen_tree(rng, depth=rng.choice([2, 2, 3]), p_sched=0.5)
+            sc["late_fill"] = True
+            out.append(("late-fill", sc))
     if pid in ("C11", "C13"):
         # the top-level run cancelled from outside at some instant (wait_for, task.cancel)
         for sc in dyn_gen.targeted(pid, rng, n_t // 6) + [dyn_gen.gen_tree(rng, depth=rng.choice([1, 2, 2])) for _ in range(n_r // 8)]:
